@@ -212,7 +212,7 @@ private def fileG' : Node := fileGBody [.assign "=" (.id "x") (.id "a")]
 
 local macro "cov_simp" : tactic => `(tactic|
   simp [fileF, fileG, fileG', fileGBody, Syntax.coverage, Syntax.covN, Syntax.covList, Syntax.covSlot,
-    Syntax.covBody, Syntax.allowRhs, Syntax.allowOperand, Syntax.nestedOk, Gen.incDec, Node.isId,
+    Syntax.covBody, Syntax.hasEffect, Syntax.hasEffectO, Syntax.hasEffectL, Syntax.allowRhs, Syntax.allowOperand, Syntax.nestedOk, Gen.incDec, Node.isId,
     Node.isUnop, Node.isBinop, Node.isConst, Node.isCast, Node.rmCast, Gen.binOps, Gen.uOps, bind,
     Except.bind, pure, Except.pure])
 private theorem fileF_cov : Syntax.coverage fileF = .ok (0, fileF) := by cov_simp
